@@ -5,6 +5,7 @@ import (
 	"go/constant"
 	"go/token"
 	"go/types"
+	"sort"
 	"strings"
 
 	"golang.org/x/tools/go/packages"
@@ -761,4 +762,135 @@ func runK4(c *core.Ctx) {
 		return true
 	})
 	c.Check(!bad.IsValid(), "optdec.newParser/private-copy", fd.Pos(), "p.start never points into the caller's string", "p.start is derived from the caller's `data`: the native parser would read the caller's memory without padding")
+}
+
+func init() {
+	register(&core.Rule{ID: "K7", Min: 2,
+		Doc: "Symbol-table offset bookkeeping in the loader: in makeFuncnameTab / makeFilenametab every loop that appends pieces to a byte table and advances a running offset advances it by exactly the bytes appended in that iteration (sum of len(piece) over the appended pieces plus one per appended terminator); offsets handed to the runtime otherwise point into the wrong name (or past the table) as soon as a name is rewritten before being stored, which only tracebacks and profilers read.",
+		Run: runK7})
+}
+
+func runK7(c *core.Ctx) {
+	p := c.Prog
+	ld := p.Pkg("loader")
+	n := 0
+	for _, name := range []string{"makeFuncnameTab", "makeFilenametab"} {
+		fd := core.FuncDecl(ld, "", name)
+		if fd == nil {
+			c.Undecided("loader."+name, token.NoPos, "not found")
+			continue
+		}
+		c.Analysed("loader." + name)
+		k := 0
+		ast.Inspect(fd.Body, func(nd ast.Node) bool {
+			var body *ast.BlockStmt
+			switch l := nd.(type) {
+			case *ast.RangeStmt:
+				body = l.Body
+			case *ast.ForStmt:
+				body = l.Body
+			default:
+				return true
+			}
+			appended := map[string]int{}
+			var tabName string
+			ones := 0
+			var adv *ast.AssignStmt
+			for _, s := range body.List {
+				as, ok := s.(*ast.AssignStmt)
+				if !ok || len(as.Lhs) != 1 || len(as.Rhs) != 1 {
+					continue
+				}
+				if call, ok := as.Rhs[0].(*ast.CallExpr); ok && exprStr(call.Fun) == "append" && len(call.Args) == 2 && exprStr(call.Args[0]) == exprStr(as.Lhs[0]) {
+					if tb, ok := p.TypeOf(as.Lhs[0]).Underlying().(*types.Slice); ok {
+						if b, ok := tb.Elem().Underlying().(*types.Basic); ok && b.Kind() == types.Byte {
+							tabName = exprStr(as.Lhs[0])
+							if call.Ellipsis.IsValid() {
+								appended["len("+exprStr(call.Args[1])+")"]++
+							} else {
+								ones++
+							}
+						}
+					}
+				}
+				if as.Tok == token.ADD_ASSIGN {
+					if _, isInt := p.TypeOf(as.Lhs[0]).Underlying().(*types.Basic); isInt && strings.Contains(strings.ToLower(exprStr(as.Lhs[0])), "off") {
+						adv = as
+					}
+				}
+			}
+			if tabName == "" || adv == nil {
+				return true
+			}
+			n++
+			k++
+			cn := "loader." + name + "/offset-advance#" + itoa(k)
+			// parse the advance expression into terms
+			terms := map[string]int{}
+			consts := int64(0)
+			okExpr := true
+			var walk func(e ast.Expr)
+			walk = func(e ast.Expr) {
+				e = ast.Unparen(e)
+				if v, ok := p.ConstInt(e); ok {
+					consts += v
+					return
+				}
+				switch x := e.(type) {
+				case *ast.BinaryExpr:
+					if x.Op == token.ADD {
+						walk(x.X)
+						walk(x.Y)
+						return
+					}
+				case *ast.CallExpr:
+					if len(x.Args) == 1 {
+						// conversions uint32(len(x)) etc.
+						if tv := p.TypeOf(x.Fun); tv != nil {
+							if _, isSig := tv.Underlying().(*types.Signature); !isSig {
+								walk(x.Args[0])
+								return
+							}
+						}
+						if exprStr(x.Fun) == "len" {
+							terms[exprStr(x)]++
+							return
+						}
+					}
+				}
+				okExpr = false
+			}
+			walk(adv.Rhs[0])
+			if !okExpr {
+				c.Undecided(cn, adv.Pos(), "advance expression %s not understood", exprStr(adv.Rhs[0]))
+				return true
+			}
+			same := consts == int64(ones) && len(terms) == len(appended)
+			for t, cnt := range appended {
+				if terms[t] != cnt {
+					same = false
+				}
+			}
+			if same {
+				c.OK(cn, adv.Pos(), "offset advanced by exactly the bytes appended to %s", tabName)
+			} else {
+				c.Bad(cn, adv.Pos(), "the running offset is advanced by `%s` but this iteration appends %v plus %d terminator byte(s) to %s: later entries get offsets that do not point at their own name (tracebacks through generated code print wrong names or crash in runtime.funcName)", exprStr(adv.Rhs[0]), keysOfCount(appended), ones, tabName)
+			}
+			return true
+		})
+	}
+	if n < 2 {
+		c.Undecided("loader/offset-bookkeeping", token.NoPos, "only %d table-building loops found", n)
+	}
+}
+
+func keysOfCount(m map[string]int) []string {
+	var out []string
+	for k, v := range m {
+		for i := 0; i < v; i++ {
+			out = append(out, k)
+		}
+	}
+	sort.Strings(out)
+	return out
 }
